@@ -117,8 +117,9 @@ def run_replay(mod, choices, keep_kinds=False):
 
 def _run(mod, ch):
     env = _get_env()
-    out_save = sys.stdout
+    out_save, err_save = sys.stdout, sys.stderr
     sys.stdout = io.StringIO()
+    sys.stderr = io.StringIO()      # progress bars and worker chatter; tracebacks of simulated workers are captured by the simulator
     try:
         try:
             res = mod.run_one(ch, env)
@@ -127,7 +128,7 @@ def _run(mod, ch):
                 raise
             res = {"harness_error": "%s: %s\n%s" % (type(e).__name__, e, traceback.format_exc())}
     finally:
-        sys.stdout = out_save
+        sys.stdout, sys.stderr = out_save, err_save
     res["choices"] = list(ch.rec)
     if ch.kinds is not None:
         res["kinds"] = list(ch.kinds)
